@@ -1,4 +1,242 @@
-import Sio.Model.Server
+/-
+  C04 — server connection lifecycle (histories; the asyncio schedules are in C04sched).
+
+  `connect_once`, `connect_no_handler`, `not_served`, `duplicate`: what a CONNECT does — exact
+  state and outputs.  `sids_fresh`: session ids are `sidName n` for the values of a counter that
+  never decreases, so they are pairwise distinct over any history (relative to DESIGN §4:
+  `generate_id()` never repeats).  `disconnect_once`: over any history of the domain the
+  disconnect handler of a session runs at most once.  `after_end`: afterwards the session is not
+  connected, in no room, never a recipient — for ever.  `other_namespaces_unaffected`.
+
+  About `Sio.Server.step` / `run`, for every decoder, configuration, registry and script; from
+  every well-formed state (`Server.WF`, invariant of all reachable states).
+-/
+import Sio.Lemmas.ServerOnce
 namespace Sio.C04
-theorem placeholder_stub : True := trivial
+open Sio Sio.Server Sio.Rooms
+
+variable {dec : Str → Except Err (Packet × Nat)} {cfg : Cfg}
+
+/-- frame `v` from `t` is a CONNECT packet for namespace `nsp` with payload `data` -/
+structure IsConnect (dec : Str → Except Err (Packet × Nat)) (s : Srv) (t : Eio) (v : J)
+    (nsp : Option Str) (data : Option J) : Prop where
+  noPartial : s.binbuf.find? (fun e => e.1 = t) = none
+  decoded : ∃ n id, frameDecode dec v = .ok (⟨CONNECT, nsp, id, data⟩, n)
+
+theorem step_of_isConnect {s : Srv} {t : Eio} {v : J} {nsp : Option Str} {data : Option J}
+    (h : IsConnect dec s t v nsp data) :
+    step dec cfg s (.frame t v) = handleConnect cfg s t nsp data := by
+  obtain ⟨n, id, hd⟩ := h.decoded
+  rw [step, handleFrame_text dec cfg h.noPartial, hd]
+  unfold dispatchPacket
+  simp
+
+/-! ### demo state -/
+
+def reg0 : Registry := ⟨fun _ _ => true, fun _ => true, fun _ => false, fun _ _ => false⟩
+/-- first connect handler call accepts, the second refuses with two arguments -/
+def cfg0 : Cfg := ⟨false, some [['/']], false, reg0,
+  ⟨fun n => if n = 0 then .accept else .refuse [.str ['n', 'o'], .int 7], fun _ => .ret .none,
+   fun _ => .ok⟩⟩
+def dec0 : Str → Except Err (Packet × Nat)
+  | ['c'] => .ok (⟨CONNECT, none, none, some (.obj [(['k'], .int 1)])⟩, 0)
+  | ['d'] => .ok (⟨DISCONNECT, none, none, none⟩, 0)
+  | _ => .error .valueError
+def tA : Eio := ['A']
+def tB : Eio := ['B']
+def nsRoot : Ns := ['/']
+def hist0 : List Input := [.eioConnect tA, .eioConnect tB, .frame tA (.str ['c'])]
+def demo0 : Srv := (run dec0 cfg0 {} hist0).1
+theorem demo0_wf : Server.WF demo0 := Server.WF.init.run dec0 cfg0 hist0
+
+/-! ### `connect_once` -/
+
+/-- A CONNECT for a served namespace on which the (open) transport has no session yet, with a
+    connect handler registered: the handler is invoked exactly once, with the fresh session id
+    `sidName nextSid` and the auth payload when it is truthy (`a = prefix ++ sid :: auth`); then
+    * accepted: CONNECT `{sid}` (before the invocation with `always_connect`), the session is
+      registered;
+    * returned `False` / raised `ConnectionRefusedError(*args)`: CONNECT_ERROR `errorArgs args`
+      (with `always_connect`: CONNECT, then DISCONNECT `errorArgs args`), and the state is the
+      old one except for the two counters — no membership is retained;
+    * raised something else: the exception propagates (no answer; outside the property's domain). -/
+theorem connect_once {s : Srv} (h : Server.WF s) {t : Eio} {v : J} {nsp : Option Str}
+    {data : Option J} {slot : Slot} {a : List J} (hc : IsConnect dec s t v nsp data)
+    (hs : isServed cfg (nsp.getD ['/']) = true) (hn : sidOf s.rooms (nsp.getD ['/']) t = none)
+    (ht : t ∈ s.socks)
+    (hr : resolve cfg.reg (nsp.getD ['/']) (.str "connect".toList)
+            (.str (sidName s.nextSid) :: authArgs data) = .ok (.fn slot a) ∨
+          resolve cfg.reg (nsp.getD ['/']) (.str "connect".toList)
+            (.str (sidName s.nextSid) :: authArgs data) = .ok (.clsCall slot a)) :
+    let ns := nsp.getD ['/']
+    let sid := sidName s.nextSid
+    let s1 : Srv := { connected s (roomsAfterConnect s.rooms ns t sid) with nConn := s.nConn + 1 }
+    let s0 : Srv := { s with nextSid := s.nextSid + 1, nConn := s.nConn + 1 }
+    (∃ pre, a = pre ++ (.str sid :: authArgs data)) ∧
+    step dec cfg s (.frame t v) =
+      match cfg.script.onConnect s.nConn with
+      | .accept =>
+        (s1, if cfg.alwaysConnect then [.send t (pktConnect ns sid), .invoke slot a]
+             else [.invoke slot a, .send t (pktConnect ns sid)])
+      | .retFalse =>
+        (s0, if cfg.alwaysConnect then
+               [.send t (pktConnect ns sid), .invoke slot a, .send t (pktDisconnect ns (some (errorArgs [])))]
+             else [.invoke slot a, .send t (pktConnectError ns (errorArgs []))])
+      | .refuse args =>
+        (s0, if cfg.alwaysConnect then
+               [.send t (pktConnect ns sid), .invoke slot a, .send t (pktDisconnect ns (some (errorArgs args)))]
+             else [.invoke slot a, .send t (pktConnectError ns (errorArgs args))])
+      | .raise =>
+        (s1, if cfg.alwaysConnect then [.send t (pktConnect ns sid), .invoke slot a, .raised .other]
+             else [.invoke slot a, .raised .other]) := by
+  intro ns sid s1 s0
+  refine ⟨?_, ?_⟩
+  · rcases hr with hr | hr <;> exact resolve_args hr
+  · rw [step_of_isConnect hc]
+    exact handleConnect_handler h cfg data hs hn ht hr
+
+-- transport B connects: second handler call, refused with ("no", 7)
+example : IsConnect dec0 demo0 tB (.str ['c']) none (some (.obj [(['k'], .int 1)])) :=
+  ⟨rfl, 0, none, rfl⟩
+example : isServed cfg0 nsRoot = true ∧ sidOf demo0.rooms nsRoot tB = none ∧ tB ∈ demo0.socks := by
+  decide
+example : (step dec0 cfg0 demo0 (.frame tB (.str ['c']))).2 =
+    [.invoke (.fn nsRoot "connect".toList) [.str (sidName 1), .obj [(['k'], .int 1)]],
+     .send tB (pktConnectError nsRoot (errorArgs [.str ['n', 'o'], .int 7]))] := by rfl
+example : (step dec0 cfg0 demo0 (.frame tB (.str ['c']))).1.rooms = demo0.rooms := by rfl
+
+/-- No connect handler registered: accepted, CONNECT `{sid}`, nothing invoked. -/
+theorem connect_no_handler {s : Srv} (h : Server.WF s) {t : Eio} {v : J} {nsp : Option Str}
+    {data : Option J} (hc : IsConnect dec s t v nsp data)
+    (hs : isServed cfg (nsp.getD ['/']) = true) (hn : sidOf s.rooms (nsp.getD ['/']) t = none)
+    (ht : t ∈ s.socks)
+    (hr : resolve cfg.reg (nsp.getD ['/']) (.str "connect".toList)
+            (.str (sidName s.nextSid) :: authArgs data) = .ok .notHandled ∨
+          resolve cfg.reg (nsp.getD ['/']) (.str "connect".toList)
+            (.str (sidName s.nextSid) :: authArgs data) = .ok .clsNoMethod) :
+    step dec cfg s (.frame t v) =
+      (connected s (roomsAfterConnect s.rooms (nsp.getD ['/']) t (sidName s.nextSid)),
+        [.send t (pktConnect (nsp.getD ['/']) (sidName s.nextSid))]) := by
+  rw [step_of_isConnect hc]
+  exact handleConnect_no_handler h cfg data hs hn ht hr
+
+/-- CONNECT for a namespace that is not served: CONNECT_ERROR "Unable to connect", no handler,
+    state unchanged. -/
+theorem not_served {s : Srv} {t : Eio} {v : J} {nsp : Option Str} {data : Option J}
+    (hc : IsConnect dec s t v nsp data) (hs : isServed cfg (nsp.getD ['/']) = false) :
+    step dec cfg s (.frame t v) =
+      (s, sendTo s (some t) (pktConnectError (nsp.getD ['/']) (.str "Unable to connect".toList))) := by
+  rw [step_of_isConnect hc]
+  exact handleConnect_refused_early cfg s t nsp data (Or.inl hs)
+
+/-- CONNECT on a namespace the transport is already connected to: the same refusal. -/
+theorem duplicate {s : Srv} {t : Eio} {v : J} {nsp : Option Str} {data : Option J} {sid : Sid}
+    (hc : IsConnect dec s t v nsp data) (hs : sidOf s.rooms (nsp.getD ['/']) t = some sid) :
+    step dec cfg s (.frame t v) =
+      (s, sendTo s (some t) (pktConnectError (nsp.getD ['/']) (.str "Unable to connect".toList))) := by
+  rw [step_of_isConnect hc]
+  exact handleConnect_refused_early cfg s t nsp data (Or.inr (by rw [hs]; rfl))
+
+example : sidOf demo0.rooms nsRoot tA = some (sidName 0) := by decide
+
+/-! ### `sids_fresh` -/
+
+/-- Every session id in use is `sidName k` for some `k` below the counter; ids in use on
+    different transports or namespaces are different; the counter never decreases over any
+    history.  Hence the id `sidName nextSid` handed out by a CONNECT was never used before and
+    is never handed out again: all allocated ids are pairwise distinct. -/
+theorem sids_fresh {s : Srv} (h : Server.WF s) :
+    (∀ e ∈ s.rooms, ∃ k, k < s.nextSid ∧ e.sid = sidName k) ∧
+    (∀ e₁ ∈ s.rooms, ∀ e₂ ∈ s.rooms, e₁.sid = e₂.sid → e₁.ns = e₂.ns ∧ e₁.eio = e₂.eio) ∧
+    (∀ is : List Input, s.nextSid ≤ (run dec cfg s is).1.nextSid) ∧
+    (∀ (is : List Input), ∀ e ∈ (run dec cfg s is).1.rooms,
+      e.sid = sidName (run dec cfg s is).1.nextSid → False) ∧
+    (∀ a b : Nat, sidName a = sidName b → a = b) := by
+  refine ⟨h.sidAlloc, ?_, fun is => nextSid_mono h dec cfg is, ?_, fun _ _ => sidName_inj⟩
+  · intro e₁ h₁ e₂ h₂ heq
+    have hns := h.sidNs e₁ h₁ e₂ h₂ heq
+    exact ⟨hns, h.rooms.sidEio e₁ h₁ e₂ h₂ hns heq⟩
+  · intro is e he heq
+    obtain ⟨k, hk, hs⟩ := (h.run dec cfg is).sidAlloc e he
+    have := sidName_inj (hs.symm.trans heq)
+    omega
+
+/-- A later CONNECT gets a different id than an earlier one, whatever happened in between. -/
+theorem sids_fresh_later {s : Srv} (h : Server.WF s) (i : Input) (is : List Input)
+    (hi : (step dec cfg s i).1.nextSid = s.nextSid + 1) :
+    sidName (run dec cfg (step dec cfg s i).1 is).1.nextSid ≠ sidName s.nextSid := by
+  intro heq
+  have h1 := nextSid_mono (h.step dec cfg i) dec cfg is
+  have := sidName_inj heq
+  omega
+
+/-! ### `disconnect_once` -/
+
+/-- Over any history of the property's domain (`Dom`: no handler is run for a client event that
+    is literally named "disconnect"), from any well-formed state, for every session id: the
+    disconnect handler is invoked at most once; not at all if the session had already ended; and
+    when it is invoked the session has ended (`Dead`: allocated and connected nowhere). -/
+theorem disconnect_once {s : Srv} (h : Server.WF s) {is : List Input} (hd : Dom dec cfg s is)
+    (k : Nat) :
+    discCount (sidName k) (run dec cfg s is).2 ≤ 1 ∧
+    (Dead k s → discCount (sidName k) (run dec cfg s is).2 = 0) ∧
+    (discCount (sidName k) (run dec cfg s is).2 = 1 → Dead k (run dec cfg s is).1) := by
+  have := once_run hd h k
+  exact ⟨this.le1, this.dead0, this.dead1⟩
+
+-- the demo: A's session ends by a client DISCONNECT; the later transport loss and the server's
+-- disconnect() find nothing to end
+def histD : List Input :=
+  [.frame tA (.str ['d']), .eioLost tA ['x'], .apiDisconnect (sidName 0) nsRoot]
+example : Dom dec0 cfg0 demo0 histD := by
+  refine .frame ?_ (.other (by simp) (by simp) (by simp) (.other (by simp) (by simp) (by simp) .nil))
+  intro nsp id data s₁ first rest hc
+  cases hc with
+  | text hf hd ht =>
+    have : frameDecode dec0 (.str ['d']) = .ok (⟨DISCONNECT, none, none, none⟩, 0) := rfl
+    rw [this] at hd
+    cases hd
+    cases ht
+  | binary hf => cases hf
+example : discCount (sidName 0) (run dec0 cfg0 demo0 histD).2 = 1 := by decide
+
+/-- The gate itself: once a session has ended, `disconnect()` and a client DISCONNECT for it do
+    nothing. -/
+theorem disconnect_after_end {s : Srv} (h : Server.WF s) {sid : Sid} (hl : ¬ sidLive s.rooms sid)
+    (ns : Ns) : step dec cfg s (.apiDisconnect sid ns) = (s, []) := by
+  rw [step]; unfold apiDisconnect
+  rw [(not_connected_of_not_live h hl ns).1]; rfl
+
+/-! ### `after_end` -/
+
+/-- After a session `sid` on `ns` (transport `t`) has been ended — by a client DISCONNECT,
+    `disconnect()` or transport loss: all three reach `ending` — in every later state of every
+    history it is not connected, is in no room, and is not among the recipients of any emit on
+    any namespace: nothing is delivered through it again. -/
+theorem after_end {s : Srv} (h : Server.WF s) {sid : Sid} {ns : Ns} {t : Eio}
+    (he : eioOf s.rooms ns sid = some t) (k : Nat) (is : List Input) (ns' : Ns) :
+    let s' := (run dec cfg (ending s sid ns k) is).1
+    isConnected s' sid ns' = false ∧ getRooms s'.rooms ns' sid = [] ∧
+    ∀ to skip, sid ∉ (recipients s'.rooms ns' to skip).map Prod.fst := by
+  intro s'
+  have hw := (Reach.ending h he k).wf h
+  obtain ⟨j, hj, hs⟩ := h.sidAlloc _ (eioOf_some_mem he)
+  simp only at hs
+  subst hs
+  have hd : Dead j (ending s (sidName j) ns k) := ⟨hj, not_sidLive_disconnect h.toWF0 he⟩
+  exact not_connected_of_not_live (hw.run dec cfg is) (hd.run hw dec cfg is).2 ns'
+
+/-- each of the three causes ends the session through the same state change -/
+theorem end_paths (s : Srv) (sid : Sid) (ns : Ns) (reason : Str) (b : Bool) :
+    ∃ k, (endSession cfg s sid ns reason b).1 = ending s sid ns k :=
+  endSession_state cfg s sid ns reason b
+
+/-! ### `other_namespaces_unaffected` -/
+
+/-- Ending the session on `ns` leaves every room entry of every other namespace — the same
+    transport's other sessions included — exactly as it was. -/
+theorem other_namespaces_unaffected (s : Srv) (sid : Sid) (ns : Ns) (k : Nat) :
+    (ending s sid ns k).rooms.filter (fun e => e.ns != ns) = s.rooms.filter (fun e => e.ns != ns) :=
+  ending_other_ns s sid ns k
+
 end Sio.C04
